@@ -256,6 +256,19 @@ func generate(thorough bool, emit func(kase)) {
 		for _, k := range []bool{false, true} {
 			emit(kase{Family: "multi-record-hello-many-extensions", Desc: "plain 60 kB, 15000 empty extensions", Keys: k, First: tlsref.FragmentMax(0x0301, manyExts.Msg())})
 		}
+		// ... and 64 kB made of ONE extension that lists 32000 one-octet protocol names (a legal ALPN extension): what is kept of a
+		// hello must not grow with the number of names either
+		{
+			var names []string
+			for i := 0; i < 32000; i++ {
+				names = append(names, string(rune('a'+i%26)))
+			}
+			manyNames := baseOuter()
+			manyNames.Exts = []tlsref.Ext{tlsref.SNI(pubName), tlsref.SupportedVersions(0x0304), tlsref.ALPN(names...)}
+			for _, k := range []bool{false, true} {
+				emit(kase{Family: "multi-record-hello-many-alpn-names", Desc: "plain 64 kB, 32000 one-octet ALPN names", Keys: k, First: tlsref.FragmentMax(0x0301, manyNames.Msg()), Ops: []op{{Dir: 'c'}, {Dir: 'c'}}})
+			}
+		}
 		bs := sealed(append(echx.StdEncInner(innerName, []string{"h2"}, false), tlsref.Opaque(0x7a7a, 25000)), nil, nil)
 		emit(kase{Family: "multi-record-hello", Desc: "sealed, 25 kB inner", Keys: true, First: tlsref.FragmentMax(0x0301, bs.Outer.Msg())})
 		msgGood := good.Outer.Msg()
